@@ -7,7 +7,7 @@
    bridge keeping the child) / Forget / Getattr / Getxattr / Listxattr / state-dir walks. [lookup_spec] and [readdir_spec] are the
    answers of a fresh node. [valid_name] = the names a kernel can send (non-empty, not "." / ".."). *)
 From Coq Require Import List ZArith Bool String.
-From SV Require Import Model.Node Proofs.Node.
+From SV Require Import Model.Node Model.Overlay Proofs.Node Proofs.Overlay.
 Import ListNotations.
 Local Open Scope Z_scope.
 
@@ -151,6 +151,52 @@ Proof.
 Qed.
 Print Assumptions C07_listing_sorted.
 
+(* Stacking, per directory: for every name that can be part of an image (not a marker name, not a root landmark, not the
+   reserved state directory), overlayfs over the served directory and OCI application of the layer directory agree on where the
+   merged name comes from — the layer's own entry with its attributes, the lower layers, or nowhere — whatever the lower
+   directory holds. Hypotheses: metadata ids fit the inode space; the layer has no real 0/0 character device of that name
+   (overlayfs itself reads one as a whiteout); the directory entry does not itself carry an overlay opaque xattr. *)
+Theorem C07_overlay_dir_is_oci_dir :
+  forall c self ch n lower_has,
+    image_name c n = true -> ~ (c_root c = true /\ n = state_dir_name) ->
+    (forall m e, (m = n \/ m = (wh_prefix ++ n)%string) -> find_child ch m = Some e -> ino_of (c_base c) (e_id e) <> None) ->
+    (forall e i, find_child ch n = Some e -> is_whiteout_dev (entry_to_attr i (e_attr e)) = false) ->
+    (forall a, In a (opaque_xattrs (c_mode c)) -> assoc (a_xattrs (e_attr self)) a = None) ->
+    overlay_origin c self ch lower_has n = oci_origin c ch lower_has n.
+Proof. intros c self ch n lower_has H1 H2 H3 H4 H5. exact (overlay_is_oci c self ch n H1 H2 H3 H4 H5 lower_has). Qed.
+Print Assumptions C07_overlay_dir_is_oci_dir.
+
+(* ... and on whether a served sub-directory continues into the lower directory of the same name — outside the one class the
+   property excludes (a layer carrying both a whiteout for a name and a directory of that name). The opacity of the
+   sub-directory itself is the same statement one level down (served_opaque = presence of the marker, Proofs/Overlay.v).
+
+   The recursive lift ([served_stack_is_rootfs]: for every stack in the allowed class, folding overlayfs over the served
+   trees = folding OCI application over the layer trees, as whole trees) is NOT proved here; it follows the two per-directory
+   statements by induction on the path, and is checked model-free on every generated stack by the harness (overlay merge of
+   the crawled served trees vs OCI application of the tars). *)
+Theorem C07_child_merge_rule_partial :
+  forall c self ch n lower_is_dir,
+    image_name c n = true -> ~ (c_root c = true /\ n = state_dir_name) ->
+    (forall e i, find_child ch n = Some e -> is_whiteout_dev (entry_to_attr i (e_attr e)) = false) ->
+    (forall a, In a (opaque_xattrs (c_mode c)) -> assoc (a_xattrs (e_attr self)) a = None) ->
+    (forall e i, find_child ch n = Some e -> whited ch n = true -> is_dir_attr (entry_to_attr i (e_attr e)) = false) ->
+    overlay_child_sees_lower c self ch lower_is_dir n = oci_child_sees_lower c ch lower_is_dir n.
+Proof. intros c self ch n l H1 H2 H4 H5 H6. exact (child_merge_rule c self ch n H1 H2 H4 H5 H6 l). Qed.
+Print Assumptions C07_child_merge_rule_partial.
+
+(* the excluded class is really different (so the exclusion in the property text is necessary, not an artefact):
+   a layer with directory d and whiteout .wh.d over a lower directory d — overlayfs merges, OCI does not. *)
+Theorem C07_child_merge_rule_refuted :
+  exists c self ch n,
+    image_name c n = true /\ overlay_child_sees_lower c self ch true n = true /\ oci_child_sees_lower c ch true n = false.
+Proof.
+  exists (mkCfg false 1 OpqTrusted), (mkEnt 1 (mkAttr 0 (2^31 + 493) 0 0 0 0 2 0 [])),
+         [("d"%string, mkEnt 2 (mkAttr 0 (2^31 + 493) 0 0 0 0 2 0 [])); (".wh.d"%string, mkEnt 3 (mkAttr 0 420 0 0 0 0 1 0 []))],
+         "d"%string.
+  vm_compute. repeat split.
+Qed.
+Print Assumptions C07_child_merge_rule_refuted.
+
 (* ---- non-vacuity ---- *)
 Definition ex_attr (mode : Z) : attr := mkAttr 0 mode 0 0 0 0 1 0 [].
 Definition ex_children : children :=
@@ -173,8 +219,13 @@ Example C07_nonvacuous :
   /\ lookup_spec ex_cfg ex_children ".prefetch.landmark" = LEnoent
   /\ xattr_value ex_cfg (mkEnt 1 (ex_attr (2^31 + 493))) ex_children "user.overlay.opaque" = Some "y"%string
   /\ xattr_value ex_cfg (mkEnt 1 (ex_attr (2^31 + 493))) ex_children "trusted.overlay.opaque" = None
-  /\ NoDup (map fst ex_children) /\ unlistable_target ex_cfg "g" = false /\ valid_name "g".
+  /\ NoDup (map fst ex_children) /\ unlistable_target ex_cfg "g" = false /\ valid_name "g"
+  /\ overlay_origin ex_cfg (mkEnt 1 (ex_attr (2^31 + 493))) ex_children true "g" = Absent
+  /\ overlay_origin ex_cfg (mkEnt 1 (ex_attr (2^31 + 493))) ex_children true "lower-only" = Absent   (* opaque root dir *)
+  /\ image_name ex_cfg "d" = true
+  /\ (exists e a, overlay_origin ex_cfg (mkEnt 1 (ex_attr (2^31 + 493))) ex_children true "d" = FromUpper e a).
 Proof.
   vm_compute. repeat split; try discriminate.
-  repeat constructor; simpl; intuition discriminate.
+  - repeat constructor; simpl; intuition discriminate.
+  - eexists. eexists. reflexivity.
 Qed.
